@@ -200,6 +200,61 @@ def correspondence(ctx):
             "distribution": {"evictions_seen": evicts, "revivals_seen": revives}, "disagreements": dis}
 
 
+def real_clients_probe(ctx):
+    """The same bounds with REAL inner clients (Client / PooledClient over scripted sockets) instead of stubs at the client_class seam:
+    what HashClient hands its inner clients (e.g. ignore_exc) can hide a server's failures from the failover bookkeeping.  One server is
+    down (it refuses connections and resets the ones it had); a key it owns is read / written once a second."""
+    import pymemcache.client.hash as H
+    from pymemcache.client.hash import HashClient
+    from harness import clientsim as cs
+    from harness.refserver import Server
+    found, n = [], 0
+    servers = [("10.0.0.1", 11211), ("10.0.0.2", 11211)]
+    for ign in (False, True):
+        for pooling in (False, True):
+            for ra in (0, 1, 2):
+                for opname in ("get", "set", "get_many", "set_many", "delete"):
+                    n += 1
+                    world = cs.World([], [], (), 1)
+                    nodes = {}
+                    world.addr_peer = lambda remote, data: nodes.setdefault(remote, Server()).feed(data)
+                    clock = hs.VClock([], 1000)
+                    saved = H.time
+                    H.time = clock
+                    try:
+                        hc = HashClient(servers, use_pooling=pooling, retry_attempts=ra, retry_timeout=5, dead_timeout=30, ignore_exc=ign,
+                                        socket_module=cs.FakeSocketModule(world), default_noreply=False, connect_timeout=cs.CONNECT_TIMEOUT, timeout=cs.IO_TIMEOUT)
+                        key = next(k for k in ("k%d" % i for i in range(64)) if hc.hasher.get_node(k) == "10.0.0.1:11211")
+                        world.refuse.add(("10.0.0.1", "11211"))
+                        log, escapes = [], []
+                        attempts = lambda: sum(1 for sk in world.socks if getattr(sk, "remote", None) == ("10.0.0.1", "11211"))
+                        for step in range(45):
+                            clock.last += 1
+                            before = attempts()
+                            try:
+                                {"get": lambda: hc.get(key), "set": lambda: hc.set(key, b"v"), "get_many": lambda: hc.get_many([key]),
+                                 "set_many": lambda: hc.set_many({key: b"v"}), "delete": lambda: hc.delete(key)}[opname]()
+                            except OSError:
+                                pass
+                            except Exception as e:  # noqa
+                                escapes.append((step, type(e).__name__))
+                            log += [(clock.last, False)] * (attempts() - before)
+                        why = None
+                        if not ctx.oracle.call(1, ra, 5, 30, log)[1]:
+                            why = "failing server contacted %d times in %d s: outside the window bounds (contacts at %r)" % (len(log), 45, [t - 1000 for t, _ in log][:12])
+                        elif not any(r == ("10.0.0.2", "11211") for r in nodes):
+                            why = "the failing server's key was never served by the remaining server"
+                        elif ign and escapes:
+                            why = "with ignore_exc something escaped: %r" % (escapes[:3],)
+                        if why:
+                            found.append({"clause": "with real inner clients: " + why, "input": {"retry_attempts": ra, "ignore_exc": ign, "use_pooling": pooling, "operation": opname,
+                                                                                             "history": "server 10.0.0.1 down; one call on its key every second for 45 s"},
+                                          "size": 1, "finding": None, "case": None})
+                    finally:
+                        H.time = saved
+    return found, n
+
+
 def search(ctx):
     """The property's clauses on the real client: window bounds (extracted oracle), escapes, recovery."""
     rng = ctx.rng
@@ -288,7 +343,9 @@ def search(ctx):
                               "input": {"retry_attempts": ra, "ignore_exc": True, "events": repr(events)}, "size": 0, "finding": None,
                               "case": repr(((ra, 5, 30, True), 2, events))})
                 break
-    ctx.search_summary = {"histories": nh}
+    f2, n_real = real_clients_probe(ctx)
+    found += f2
+    ctx.search_summary = {"histories": nh, "real_inner_client_probes": n_real}
     found.sort(key=lambda v: v["size"])
     return found[:1]
 
